@@ -19,7 +19,9 @@ import (
 
 func bf(name string) refmodel.BlockField { return refmodel.BlockField{Name: name, Column: name} }
 
-func col(name string) refmodel.Column { return refmodel.Column{Name: name, Type: gen.FieldColType[name]} }
+func col(name string) refmodel.Column {
+	return refmodel.Column{Name: name, Type: gen.FieldColType[name]}
+}
 
 // c05Decls draws a dependency graph: 1-2 referenced integrations and 1-2
 // dependants whose filter_ref points at a bytea column of a referenced one.
@@ -175,7 +177,7 @@ func c05Property(rt *rapid.T, ev *evid.Rec, reorgs bool) {
 	}
 	behind := false
 	notStarted := false
-	st := &c03State{floor: map[string]uint64{}, hasFloor: map[string]bool{}, maxEver: map[string]uint64{}}
+	st := &c03State{floor: map[string]uint64{}, hasFloor: map[string]bool{}, maxEver: map[string]uint64{}, deletions: map[string]bool{}}
 	check := func(p *Pair, r StepResult) {
 		if r.Panic != nil {
 			fail("Converge panicked: %v", r.Panic)
